@@ -105,6 +105,8 @@ def check(ctx):
     for k in (1, 2, 4):
         fw.run_suite(ctx, exe, "S-rtp/misaligned@+%d" % k, mis[k::3], "radiotap decode of a header at a misaligned address", env={"LWV_MISALIGN": str(k)})
 
+    ci = fw.corpus_inputs(ctx, random.Random(ctx.seed + 77))
+    fw.run_suite(ctx, exe, "S-rtp/corpus", sorted({"rtp " + (b.hex() or "-") for rt, b in ci}), "radiotap decode (coverage-guided corpus + mutants)")
     fw.conclude(ctx, broken)
 
 
